@@ -31,6 +31,7 @@ def F2(m, R):
     f = m.fn('AnsiString.' + ro.NORMALISE)
     val, default = f.own_params()[:2]
     L = 'len(%s.%s)' % (f.self_name, ro.TEXT)
+    pending_regions = []
     for lzero, regions in ((False, REGIONS_POS), (True, REGIONS_ZERO)):
         for region in regions:
             cons = 'normalise %s%s' % (region, ' (empty text)' if lzero else '')
@@ -39,7 +40,7 @@ def F2(m, R):
             try:
                 kind, got = it.run(f.body)
             except Undecided as e:
-                R.undecided(f, f.node, 'region %s: %s' % (region, e), construct=cons)
+                pending_regions.append((cons, 'region %s: %s' % (region, e)))
                 continue
             want = expected_clamp(region, lzero, Lin(0, 0, 7))
             if kind != 'return':
@@ -49,6 +50,87 @@ def F2(m, R):
             R.check(ok, f, f.node, 'region %s -> %r' % (region, want),
                     'for a value in region %s%s the normaliser returns %r; Python\'s slice rule gives %r (an index beyond the text would '
                     'become a table key)' % (region, ' of an empty text' if lzero else '', got, want), construct=cons)
+    # ---- exhaustive integer evaluation on a box that is complete for piecewise-linear maps whose breakpoints are c, +-L + c with
+    # |c| <= C (C = largest literal in the function): two such maps that agree on [-L-C-3, L+C+3] for L in 0..2C+4 agree everywhere.
+    consts = [abs(c.value) for c in ast.walk(f.node) if isinstance(c, ast.Constant) and isinstance(c.value, int) and not isinstance(c.value, bool)]
+    C = max(consts + [1])
+    cons = 'normalise integer box'
+    if C > 6:
+        R.undecided(f, f.node, 'literal %d in the normaliser: box too large' % C, construct=cons)
+    else:
+        from ..finite import int_eval
+        bad = None
+        n_pts = 0
+
+        def run_int(stmts, env):
+            for st in stmts:
+                if isinstance(st, ast.If):
+                    t = st.test
+                    # `x is None`
+                    def tv(t):
+                        if isinstance(t, ast.Compare) and len(t.ops) == 1 and isinstance(t.ops[0], (ast.Is, ast.IsNot)) and norm(t.comparators[0]) == 'None':
+                            isn = env.get(norm(t.left), 0) is None
+                            return isn if isinstance(t.ops[0], ast.Is) else not isn
+                        if isinstance(t, ast.BoolOp):
+                            vs = [tv(x) for x in t.values]
+                            return all(vs) if isinstance(t.op, ast.And) else any(vs)
+                        if isinstance(t, ast.UnaryOp) and isinstance(t.op, ast.Not):
+                            return not tv(t.operand)
+                        return bool(int_eval(t, {k: v for k, v in env.items() if v is not None}))
+                    r = run_int(st.body if tv(t) else st.orelse, env)
+                    if r is not None:
+                        return r
+                elif isinstance(st, ast.Return):
+                    return ('ret', ev_int(st.value, env))
+                elif isinstance(st, ast.Assign) and isinstance(st.targets[0], ast.Name):
+                    env[st.targets[0].id] = ev_int(st.value, env)
+                elif isinstance(st, ast.AugAssign) and isinstance(st.target, ast.Name) and isinstance(st.op, (ast.Add, ast.Sub)):
+                    d = ev_int(st.value, env)
+                    env[st.target.id] = env[st.target.id] + d if isinstance(st.op, ast.Add) else env[st.target.id] - d
+                else:
+                    raise Undecided('statement %s' % short(st))
+            return None
+
+        def ev_int(e, env):
+            if isinstance(e, ast.Name) and env.get(e.id, 0) is None:
+                return None
+            if isinstance(e, ast.Constant) and e.value is None:
+                return None
+            if isinstance(e, ast.Call) and call_name(e) in ('min', 'max') and len(e.args) == 2:
+                a, b = ev_int(e.args[0], env), ev_int(e.args[1], env)
+                return min(a, b) if call_name(e) == 'min' else max(a, b)
+            if isinstance(e, ast.IfExp):
+                return ev_int(e.body, env) if int_eval(e.test, {k: v for k, v in env.items() if v is not None}) else ev_int(e.orelse, env)
+            return int_eval(e, {k: v for k, v in env.items() if v is not None})
+        try:
+            for Lv in range(0, 2 * C + 5):
+                for v in [None] + list(range(-Lv - C - 3, Lv + C + 4)):
+                    for dflt in (0, Lv):
+                        n_pts += 1
+                        env = {val: v, default: dflt, L: Lv, 'len(self)': Lv}
+                        r = run_int(f.body, env)
+                        got = r[1] if r else None
+                        want = dflt if v is None else range(Lv)[slice(v, None)].start if False else None
+                        if v is None:
+                            want = dflt
+                        else:
+                            want = slice(v, None).indices(Lv)[0]
+                        if got != want and bad is None:
+                            bad = (Lv, v, dflt, got, want)
+        except Undecided as e:
+            R.undecided(f, f.node, str(e), construct=cons)
+            bad = 'undecided'
+        for rc, msg in pending_regions:
+            if bad == 'undecided':
+                R.undecided(f, f.node, msg, construct=rc)
+            else:
+                R.ok(f, f.node, '%s -- not decided symbolically; decided by the integer box' % msg, construct=rc)
+        pending_regions = []
+        if bad != 'undecided':
+            R.check(bad is None, f, f.node, 'equals Python\'s slice-bound rule on all %d points of the complete box' % n_pts,
+                    'for a text of length %s, value %s (default %s) the normaliser returns %s; a Python slice bound gives %s' % (bad or (0,) * 5), construct=cons)
+    for rc, msg in pending_regions:
+        R.undecided(f, f.node, msg, construct=rc)
     # ---- call sites
     sites = {
         'apply_formatting': [('start', '0'), ('end', None)],
@@ -71,7 +153,8 @@ def F2(m, R):
                 st, a, d = c
                 if norm(a) != p:
                     problems.append('normalises %s instead of %s' % (norm(a), p))
-                if norm(d) not in (want_d, 'len(%s)' % g.self_name if dflt is None else want_d):
+                if dflt is None and norm(d) not in (want_d, 'len(%s)' % g.self_name):
+                    # only `end` documents None ("to the end of the text"); `start` is an int by contract, its default never applies
                     problems.append('default for %s is %s, documented %s' % (p, norm(d), want_d))
                 # the raw parameter must not be read before it is rebound: the rebinding statement must be among the leading
                 # statements of the body and no earlier statement may mention p
@@ -261,7 +344,7 @@ def _search_result_tests(f, var):
     for n in f.walk():
         if isinstance(n, ast.Compare) and len(n.ops) == 1 and (norm(n.left) == var or norm(n.comparators[0]) == var):
             other = n.comparators[0] if norm(n.left) == var else n.left
-            if const_val(other, None) in (0, -1):
+            if isinstance(const_val(other, None), int):
                 out.append(n)
     return out
 
@@ -269,8 +352,10 @@ def _search_result_tests(f, var):
 def _found_regions(test, var):
     """{'<0','=0','>0'} -> truth of the test."""
     out = {}
+    # a search result is -1 (not found), 0, or larger; integer literals rank by their value
     for name, rank in (('<0', -1), ('=0', 0), ('>0', 1)):
-        out[name] = eval_guard(test, order_valuation({var: rank, '0': 0, '-1': -0.5}))
+        out[name] = eval_guard(test, order_valuation({var: rank}))
+    out['>1'] = eval_guard(test, order_valuation({var: 5}))
     return out
 
 
@@ -295,16 +380,17 @@ def F10(m, R):
                         key = a.id
                     elif isinstance(a, ast.Call) and call_name(a) in (ro.IDFIND1,):
                         key = norm(a)
-                    if key is not None and const_val(b, None) in (0, -1):
+                    if key is not None and isinstance(const_val(b, None), int) and not isinstance(const_val(b, None), bool):
                         sites.append((f, n, key, a is r))
     for f, test, key, swapped in sites:
         tt = _found_regions(test, key)
         cons = '%s: %s' % (f.name, re.sub(r'\s+', ' ', norm(test))[:70])
         vals = (tt['<0'], tt['=0'], tt['>0'])
-        # the test is either "found" (F,T,T) or "not found" (T,F,F)
-        ok = vals in ((False, True, True), (True, False, False))
+        # the test is either "found" (F,T,T) or "not found" (T,F,F), uniformly for every position
+        ok = vals in ((False, True, True), (True, False, False)) and tt['>1'] == tt['>0']
         R.check(ok, f, test, 'classifies <0 as not found and >=0 as found',
-                'truth over result <0 / =0 / >0 is %s: a match at position 0 %s' % (vals, 'is treated as not found' if tt['=0'] == tt['<0'] else 'is mis-classified'),
+                'truth over result -1 / 0 / >0 is %s: %s' % (vals, 'a failed search (-1) is treated like a match' if (tt['<0'] and tt['=0'] and tt['>0']) else
+                                                             'a match at position 0 is treated as not found' if tt['=0'] == tt['<0'] else 'positions are classified inconsistently'),
                 construct=cons)
 
 
@@ -333,7 +419,7 @@ def F5(m, R):
         if g is not None:
             for name, rank in (('<0', -1), ('>0', 1)):
                 tt2[name] = eval_guard(g.test, order_valuation({count: rank, '0': 0}))
-        R.check(ok and tt2 == {'<0': False, '>0': True}, f, d, 'count -= 1 per replacement, only while positive',
+        R.check(ok and tt2.get('>0') is True, f, d, 'count -= 1 per replacement while positive',
                 'count is changed by %s under %s' % (short(d), short(g.test) if g is not None else 'no guard'), construct=cons)
 
 
@@ -347,28 +433,29 @@ def F11(m, R):
         return
     g = hits[0]
     names = names_in(g.test) - {inplace}
-    # lcount / rcount names: the two counters
+    # lcount / rcount names: the two counters (lcount: 0, 1, 2 ...; rcount: None or negative)
     bad = []
-    for l0 in (True, False):
-        for r0 in (True, False):
+    cnts = sorted(names)
+    if len(cnts) != 2:
+        R.undecided(f, g, 'shortcut guard %s' % short(g.test), construct='_strip shortcut')
+        return
+    lc, rc = cnts[0], cnts[1]
+    for lv in (0, 1, 2):
+        for rv in (None, -1, -2):
             for ip in (True, False):
-                extra = {}
-                for nme in names:
-                    pass
-                val = flag_valuation({inplace: ip}, {})
-                cnts = sorted(names)
-                if len(cnts) != 2:
-                    R.undecided(f, g, 'shortcut guard %s' % short(g.test), construct='_strip shortcut')
-                    return
-                lc, rc = cnts[0], cnts[1]
-                ex = {'%s == 0' % lc: l0, '%s != 0' % lc: not l0, 'not %s' % lc: l0, lc: not l0,
-                      '%s is None' % rc: r0, '%s is not None' % rc: not r0, '%s == 0' % rc: r0, 'not %s' % rc: r0, rc: not r0}
-                got = eval_guard(g.test, flag_valuation({inplace: ip}, ex))
+                ex = {'%s is None' % rc: rv is None, '%s is not None' % rc: rv is not None, 'not %s' % rc: rv is None, rc: rv is not None,
+                      'not %s' % lc: lv == 0, lc: lv != 0}
+                order = {lc: lv}
+                if rv is not None:
+                    order[rc] = rv
+                got = eval_guard(g.test, merge_valuations(flag_valuation({inplace: ip}, ex), order_valuation(order)))
                 if got is None:
                     R.undecided(f, g, 'shortcut guard %s' % short(g.test), construct='_strip shortcut')
                     return
-                if got and not (l0 and r0):
-                    bad.append('returns the receiver untouched although %s' % ('characters are to be stripped on the left' if not l0 else 'characters are to be stripped on the right'))
+                if got and lv != 0:
+                    bad.append('returns the receiver untouched although characters are to be stripped on the left')
+                if got and rv is not None:
+                    bad.append('returns the receiver untouched although characters are to be stripped on the right')
                 if got and not ip:
                     bad.append('returns the receiver itself for inplace=False')
     R.check(not bad, f, g, 'the shortcut is taken only in place and only with nothing to strip', '; '.join(sorted(set(bad))), construct='_strip shortcut')
@@ -434,6 +521,22 @@ def F4(m, R):
         g2 = next((n for n in f.body if isinstance(n, ast.If) and norm(n.test) == 'not ' + sv and any(isinstance(x, ast.Return) for x in n.body)), None)
     ok = g2 is not None and norm(next(x for x in g2.body if isinstance(x, ast.Return)).value) == '(start, end)'
     R.check(ok, f, g2 or f.node, 'empty settings return the normalised range itself', construct=cons)
+    # the scan covers exactly the points in [start, end]
+    cons = 'find_settings range filter'
+    comp = next((n for n in f.walk() if isinstance(n, ast.DictComp) and call_name(n.generators[0].iter) == ro.ITERATOR), None)
+    if comp is None:
+        R.undecided(f, f.node, 'point table of find_settings not found', construct=cons)
+    else:
+        g0 = comp.generators[0]
+        ix = norm(g0.target.elts[0]) if isinstance(g0.target, ast.Tuple) else norm(g0.target)
+        tt = {}
+        for nm, rank in (('<start', 0), ('=start', 1), ('inside', 2), ('=end', 3), ('>end', 4)):
+            vs = [eval_guard(c, order_valuation({ix: rank, 'start': 1, 'end': 3})) for c in g0.ifs]
+            tt[nm] = None if any(v is None for v in vs) else all(vs)
+        want = {'<start': False, '=start': True, 'inside': True, '=end': True, '>end': False}
+        okv = norm(comp.value) in ('list(%s)' % norm(g0.target.elts[2]), '%s.copy()' % norm(g0.target.elts[2]), '%s[:]' % norm(g0.target.elts[2])) if isinstance(g0.target, ast.Tuple) else False
+        R.check(tt == want and okv and norm(comp.key) == ix, f, comp, 'a copy of the active list is recorded for every point in [start, end]',
+                'points recorded for regions %s (copy of the active list: %s)' % (sorted(k for k, v in tt.items() if v), okv), construct=cons)
     # start predicate all / end predicate not all, over the same membership test
     cons = 'find_settings predicates'
     tests = [n for n in f.walk() if isinstance(n, ast.If) and isinstance(n.test, ast.Compare) and isinstance(n.test.comparators[0], ast.ListComp)
@@ -498,8 +601,30 @@ def F12(m, R):
     eb = arms.get('<else>') or []
     txt = '\n'.join(norm(s) for s in eb)
     ok = 'hasattr(%s, \'ansi_settings\')' % it in txt and 'raise TypeError' in txt and ('%s(%s, %s, parsed_ids)' % (ro.SCRUB, it, mk)) in txt
+    # which kinds of value reach `raise TypeError`: exactly those that are neither a list nor a tuple (and have no ansi_settings)
+    tt = {}
+    try:
+        for kind in ('list', 'tuple', 'other', 'has-attr'):
+            seen = []
+
+            def visit(s_):
+                if isinstance(s_, ast.Raise):
+                    seen.append(call_name(s_.exc))
+            ex = {'hasattr(%s, \'ansi_settings\')' % it: kind == 'has-attr', 'isinstance(%s, list)' % it: kind == 'list',
+                  'isinstance(%s, tuple)' % it: kind == 'tuple', 'isinstance(%s, (list, tuple))' % it: kind in ('list', 'tuple'),
+                  'id(%s) in parsed_ids' % it: False}
+            if kind == 'has-attr':
+                ex['isinstance(%s, list)' % it] = False
+                ex['isinstance(%s, tuple)' % it] = True     # the enum's ansi_settings is a tuple
+                ex['isinstance(%s, (list, tuple))' % it] = True
+            out = run_block(eb, flag_valuation({}, ex), visit)
+            tt[kind] = seen[0] if seen else None
+    except Undecided:
+        tt = None
+    if tt is not None:
+        ok = ok and tt == {'list': None, 'tuple': None, 'other': 'TypeError', 'has-attr': None}
     R.check(ok, f, eb[0] if eb else loop, 'objects with ansi_settings, lists and tuples are unpacked recursively; anything else raises TypeError',
-            construct='scrub else')
+            'unsupported-type handling: %s' % (tt,), construct='scrub else')
     fi = m.fn('%s._scrub_ansi_format_int' % ro.POINT)
     g = next((n for n in fi.body if isinstance(n, ast.If)), None)
     ok = g is not None and any(isinstance(x, ast.Raise) and call_name(x.exc) == 'ValueError' for x in g.body)
